@@ -451,6 +451,8 @@ func c15unaryExpect(tok token.Token, a ugo.Object) (ugo.Object, bool) {
 		case token.Sub:
 			return -o, true
 		}
+	// (char: the documents do not fix the result type of a unary char operation (+c is a char, -c and ^c are ints in the
+	// implementation); only the numeric value is judged, by the unary-vs-binary definition law in checkUnary)
 	case ugo.Bool:
 		i := ugo.Int(0)
 		if o {
@@ -678,6 +680,29 @@ func (c15) checkUnary(c *core.Ctx, sc *c15scripts, a c15val) {
 				c.Violation("C15|not|"+tname(a.v), "!a is not IsFalsy", c15wit{A: a.src, Op: "!", Route: "script", Got: r.key()})
 			}
 			continue
+		}
+		// documented definition: +x is 0 + x, -x is 0 - x, ^x is m ^ x (m = -1): the unary result has the numeric value
+		// of the corresponding binary operation on the same operand (the result TYPE of a unary char operation is int)
+		if k := c15kind(a.v); k != kNone && r.errName == "" && r.val != nil {
+			var b c15res
+			switch tok {
+			case token.Add, token.Sub:
+				b = c15direct(ugo.Int(0), tok, a.v)
+			case token.Xor:
+				b = c15direct(ugo.Int(-1), tok, a.v)
+			}
+			if b.val != nil && b.errName == "" && b.panicked == "" {
+				c.Count("unary_vs_binary_definition")
+				same := toI(r.val) == toI(b.val)
+				if k == kFloat {
+					fa, fb := float64(r.val.(ugo.Float)), toF(b.val)
+					same = fa == fb || (fa != fa && fb != fb)
+				}
+				if !same {
+					c.Violation("C15|unary-definition|"+tok.String()+"|"+tname(a.v), "unary "+tok.String()+"x differs numerically from its documented binary definition", c15wit{A: a.src, Op: tok.String(), Route: "script", Got: r.key(), Want: b.key()})
+					continue
+				}
+			}
 		}
 		if want, ok := c15unaryExpect(tok, a.v); ok {
 			c.Count("numeric_value_checks")
